@@ -29,6 +29,7 @@ func runC17(c *Ctx) {
 	writerMethodRules(c, "C17")
 	c17WriteRetention(c)
 	readLineRules(c, "C17")
+	pooledEscapeRules(c, "C17")
 }
 
 func c17UnsafeViews(c *Ctx) {
